@@ -58,6 +58,10 @@ def run(ck):
     R6 = ck.rule('R12.6', "mode table and stop: c/cancel, w/wait, s/start map to their control "
                  "coroutines, anything else raises", 'M0', 2)
 
+    R7 = ck.rule('R12.7', "the outcome of a run never escapes as an exception: under M0 (explicit `raise` "
+                 "statements only) neither _output_coro nor _output_coro_wrapper nor a control coroutine can end "
+                 "with an exception - a run that was cancelled, failed or succeeded is reported and absorbed, so "
+                 "the control coroutine lives on for the next event", 'M0', 5)
     with ck.section('R12.1'):
         # ------------------------------------------------------------------ R12.1
         oc = m.get('_output_coro')
@@ -522,3 +526,24 @@ def run(ck):
                                 ('{"c", "cancel"}', '{"w", "wait"}', '{"s", "start"}')), kinds=('stmt',))
         ck.ob(R6, f"{ini.fid} :: unknown mode", bool(other),
               "any other mode raises ValueError" if other else "an unknown mode is accepted", ini, ini.node)
+
+    with ck.section('R12.7'):
+        # ------------------------------------------------------------------ R12.7
+        for nm in ('_output_coro', '_output_coro_wrapper', '_ctrl_cancel', '_ctrl_wait', '_ctrl_start'):
+            f7 = m.get(nm)
+            ck.need(R7, f7 is not None, f"OutputAsync.{nm} not found")
+            # M1: awaits and hook calls may raise, so the handlers are reachable; what is asked is whether an
+            # *explicit* raise statement (also a bare re-raise in a handler) propagates to the caller
+            g7 = ck.cfg(f7.fid, 'M1')
+            reach7 = g7.reachable()
+            handlers7 = [n for n in g7.nodes if n.kind == 'handler']
+            p7 = None
+            for r7 in g7.nodes:
+                if r7.id in reach7 and r7.kind == 'stmt' and isinstance(r7.ast, ast.Raise):
+                    p7 = p7 or g7.path_avoiding(r7, [g7.raise_exit], avoid=handlers7)
+            ck.ob(R7, f"{f7.fid} :: no explicit raise escapes", p7 is None,
+                  "no `raise` statement of this coroutine reaches its caller" if p7 is None else
+                  "an explicit `raise` ends this coroutine with an exception: in wait mode (and through `await "
+                  "task` in cancel mode) it ends the control coroutine, the events still queued or arriving "
+                  "later are never run and get no outcome", f7, p7[0].ast if p7 else f7.node,
+                  witness=path_witness(g7, p7))
